@@ -308,8 +308,32 @@ type modelAnswer struct {
 
 func (h *harness) askModel(src string, leak bool) (modelAnswer, error) {
 	var a modelAnswer
-	sc := pk.Scan([]byte(src))
-	reply, err := h.model.Ask(sc.Request("doc", h.maxRec, leak))
+	clip := src
+	if len(clip) > 300 {
+		clip = clip[:300]
+	}
+	h.begin(Case{Kind: "scan", Src: clip, N: len(src)})
+	sc := pk.Scan([]byte(src)) // the real scanner is the model's token source
+	h.end()
+	type answer struct {
+		reply string
+		err   error
+	}
+	ch := make(chan answer, 1)
+	go func() {
+		reply, err := h.model.Ask(sc.Request("doc", h.maxRec, leak))
+		ch <- answer{reply, err}
+	}()
+	var reply string
+	var err error
+	select {
+	case x := <-ch:
+		reply, err = x.reply, x.err
+	case <-time.After(5 * time.Minute):
+		h.run.Violate("correspondence", fmt.Sprintf("the model driver did not answer within 5 minutes on a %d-byte text", len(src)), "", true, Case{Kind: "scan", Src: clip, N: len(src)})
+		h.run.Finish(nil)
+		os.Exit(0)
+	}
 	if err != nil {
 		return a, err
 	}
@@ -508,13 +532,23 @@ func (h *harness) workFamily(f family) {
 		}
 		h.table = append(h.table, fmt.Sprintf("%-34s n=%-6d cost=%-5v bytes=%-7d %-8s %9.3f ms errs=%-3d visits=%-8d sels=%-6d%s",
 			f.name, n, f.cost, o.Res.Bytes, o.Status, float64(o.Res.ElapsedNs)/1e6, o.Res.Errs, o.Res.Visits, o.Res.Sels, ratio))
-		run.Oblige("oracle: ParseAndValidate(+cost) finishes within the budget, without crash or depth error, cost-walk visits ≤ S²+S+16 (linear-size families)", "oracle", 1, v.mode == "", v.what)
+		// a failure that the classifier attaches to a finding is reported through Violate with that key
+		// (KNOWN-FINDING while the finding is open, VIOLATION otherwise); the row stays discharged and the
+		// case is counted, so that only unclassified failures break the obligation
+		key2 := ""
+		if v.mode != "" {
+			key2 = h.classify(c, o, v)
+		}
+		if key2 != "" {
+			run.Count("known-finding-case:" + key2)
+		}
+		run.Oblige("oracle: ParseAndValidate(+cost) finishes within the budget, without crash or depth error, cost-walk visits ≤ S²+S+16 (linear-size families; cases classified as finding F-12c are reported as such and counted under known-finding-case)", "oracle", 1, v.mode == "" || key2 != "", v.what)
 		// cost-walk step correspondence (hook counter = Lean step model) where the walk is measurable
 		if v.mode == "" || v.mode == "visits-bound" {
 			h.walkTie(c, o)
 		}
 		if v.mode != "" {
-			run.Violate("property", v.mode+": "+v.what, h.classify(c, o, v), false, c)
+			run.Violate("property", v.mode+": "+v.what, key2, false, c)
 			if v.mode == "timeout" || v.mode == "crash" || v.mode == "visits-bound" {
 				// larger sizes can only be worse; do not burn the budget again
 				run.Note("%s: sizes above n=%d skipped after %s", f.name, n, v.mode)
@@ -917,7 +951,9 @@ func (h *harness) walkCompare(c Case, r, full childResult, parsed bool, panicked
 		key := ""
 		if ok && strings.Count(c.Src, "...") >= 2 {
 			key = "F-12c-cost-walk-reexpands-fragments"
+			run.Count("known-finding-case:" + key)
 		}
+		run.Oblige("oracle: cost-walk visits ≤ S²+S+16 on random fragment graphs (cases classified as finding F-12c are reported as such)", "oracle", 1, key != "", v.what)
 		run.Violate("property", v.mode+": "+v.what, key, false, c)
 	}
 }
